@@ -11,5 +11,6 @@ type Driver func(r *rec.Rec, rng *rand.Rand, run, ops int, variant string)
 func Drivers() map[string]Driver {
 	return map[string]Driver{
 		"xlist": DriveXList,
+		"deque": DriveDeque,
 	}
 }
